@@ -12,6 +12,8 @@ def tokChars : Tok → List Char
   | .lpar => ['('] | .rpar => [')'] | .comma => [','] | .plus => ['+'] | .minus => ['-'] | .star => ['*']
   | .slash => ['/'] | .ampamp => ['&', '&'] | .barbar => ['|', '|'] | .bang => ['!'] | .arrow => ['-', '>']
   | .darrow => ['<', '-', '>']
+  | .nl => ['\n'] | .colon => [':'] | .le => ['<', '='] | .ge => ['>', '='] | .eq => ['='] | .lt => ['<'] | .gt => ['>']
+  | .st => ['s', '.', 't', '.']
 
 /-- tokens separated by single spaces -/
 def spell : List Tok → List Char
@@ -24,6 +26,7 @@ def TokOK : Tok → Prop
   | .int s => s.toList ≠ [] ∧ ∀ d ∈ s.toList, isDigit d = true
   | .float s => FloatParts s
   | .word s => plainWord s.toList = true
+  | .nl | .colon | .le | .ge | .eq | .lt | .gt | .st => False     -- program-level tokens: not part of an expression text
   | _ => True
 
 theorem lex_arrow (f : Nat) (r : List Char) (pw : Bool) (acc : List Tok) :
@@ -77,6 +80,7 @@ theorem lexTo_tok (t : Tok) (h : TokOK t) (rest : List Char) (hr : rest = [] ∨
   | bang => exact LexTo.of_step (fun f => lex_bang f rest pw acc) (by simp [tokChars])
   | arrow => exact LexTo.of_step (fun f => lex_arrow f rest pw acc) (by simp [tokChars]; omega)
   | darrow => exact LexTo.of_step (fun f => lex_darrow f rest pw acc) (by simp [tokChars]; omega)
+  | nl | colon | le | ge | eq | lt | gt | st => exact absurd h (by simp [TokOK])
 
 theorem lexTo_spell : ∀ (ts : List Tok), (∀ t ∈ ts, TokOK t) → ∀ (pw : Bool) (acc : List Tok),
     LexTo (spell ts) pw acc [] (ts.reverse ++ acc)
